@@ -469,7 +469,11 @@ BORDER_STRINGS = ["", " ", "a b", "NULL", "null", "Null", "TRUE", "true", "False
                   "2001-01-01", "2001-001", "10:00", "10:00:60", "x-", "a-\nb", "10 - \n20 km", "x-\t\nrest", "a -  \r\n b", "it's", 'say "hi"', "both ' and \"",
                   "tab\there", "two  blanks", " lead", "trail ", "line1\nline2", "a\r\nb", "semi;colon", "a=b",
                   "(paren)", "{brace}", "<angle>", "#hash", "/* c */", "*/", "a*", "/x", "caf\xe9", "\xb5m",
-                  "snow☃", "x" * 45, "word " * 20, "_under", "under_", "9lives", "ok_name", "N:S", "^PTR"]
+                  "snow☃", "x" * 45, "word " * 20, "a-b", "push-broom", "high-resolution", "semi-major-axis", "-lead", "mid - dle", "_under", "under_", "9lives", "ok_name", "N:S", "^PTR"]
+
+
+LITERAL_STRINGS = literal_matrix("OMNI") + ["T12", "1_000", "\u0661\u0662", "1__0", "0x1F", "12:00-5", "10:00+5:30",
+                                           "2001-01-01T12:00-05", "12:00-0530", "#x", "a#b", "x#"]
 
 
 class ObjGen:
@@ -490,7 +494,10 @@ class ObjGen:
     def string(self):
         r = self.r
         k = r.random()
-        if k < 0.45: return r.choice(BORDER_STRINGS)
+        if k < 0.4: return r.choice(BORDER_STRINGS)
+        # a string whose content is a literal of some dialect: what one decoder takes for a word another
+        # may take for a number or a time with a zone offset
+        if k < 0.52: return r.choice(LITERAL_STRINGS)
         if k < 0.7: return self.g.ident()
         return self.g.str_body(r.choice(['"', "'", "\x00"]))
 
@@ -534,8 +541,12 @@ class ObjGen:
         k = r.random()
         if k < 0.72 or depth > 2:
             return self.scalar()
-        if k < 0.88:
+        if k < 0.85:
             return [self.value(depth + 1) for _ in range(r.choice([0, 1, 2, 3, 8, 14]))]
+        if k < 0.88:
+            # units on a whole sequence / set (what `a = (1, 2) <m>` loads as)
+            vals = [self.number() for _ in range(r.choice([1, 2, 3]))]
+            return Quantity(vals if r.random() < 0.7 else frozenset(vals), r.choice(["m", "km/s", "deg"]))
         elems = []
         for _ in range(r.choice([0, 1, 2, 4])):
             v = self.scalar()
